@@ -226,7 +226,7 @@ def rule_r2(ctx, cg, scope) -> RuleResult:
                 if node.func.id == "float" or bounded_digits(facts, et):
                     rr.ok(dotted, label + " after isdecimal()", {"fn": dotted, "site": label, "guard": et + ".isdecimal()"})
                 else:
-                    f_ = Finding("C05.R2", _relfile(ctx, dotted), dotted, label + " after isdecimal() without a length bound",
+                    f_ = Finding("C05.R2", _relfile(ctx, dotted), dotted, "int(·) after isdecimal() without a length bound",
                                  "isdecimal() does not imply that int() succeeds: CPython refuses to convert a decimal string of more than 4300 "
                                  "digits (sys.int_max_str_digits) and raises ValueError, which no enclosing handler catches here", node.lineno)
                     if ctx._c05_in_scope(dotted):
